@@ -4,6 +4,8 @@ val tl : 'a1 list -> 'a1 list
 
 val nth_error : 'a1 list -> nat -> 'a1 option
 
+val removelast : 'a1 list -> 'a1 list
+
 val rev : 'a1 list -> 'a1 list
 
 val concat : 'a1 list list -> 'a1 list
@@ -13,6 +15,8 @@ val map : ('a1 -> 'a2) -> 'a1 list -> 'a2 list
 val flat_map : ('a1 -> 'a2 list) -> 'a1 list -> 'a2 list
 
 val fold_left : ('a1 -> 'a2 -> 'a1) -> 'a2 list -> 'a1 -> 'a1
+
+val fold_right : ('a2 -> 'a1 -> 'a1) -> 'a1 -> 'a2 list -> 'a1
 
 val existsb : ('a1 -> bool) -> 'a1 list -> bool
 
